@@ -338,6 +338,16 @@ func checkC08(w *World, r *Report) {
 		w.exportLock(r, "C08.R4", &lockSpec{named: sm, mutex: "mu", guarded: map[string]bool{"data": true}}, w.fnPos(w.Method("safemap", "SafeMap", "Set")))
 	}
 	checkSafeMapLen(w, r, "C08.R4")
+	if r.Prop == "C08" {
+		// the parent's stop function and a child-spawning handler never run side by side: one worker per actor, also after
+		// a restart (C02.R1-R5); Stop/Poison of a child always sends that child a pill of its own and waits on that pill's
+		// context (C07.R1); the stop function runs after the drain, not before it (C07.R3)
+		r.Rule("C08.R6", "one worker per actor (C02.R1-R5); every Stop/Poison makes its own pill and context (C07.R1); Invoke stops after the drain (C07.R3)", 10)
+		importRules(w, r, checkC02, "C02", "C08.R6", func(o *Obligation) bool {
+			return o.Rule == "C02.R1" || o.Rule == "C02.R2" || o.Rule == "C02.R3" || o.Rule == "C02.R4" || o.Rule == "C02.R5"
+		})
+		importRules(w, r, checkC07, "C07", "C08.R6", func(o *Obligation) bool { return o.Rule == "C07.R1" || o.Rule == "C07.R3" })
+	}
 }
 
 // ---------------------------------------------------------------------------
